@@ -55,7 +55,7 @@ def gen_cases(rng, tier):
     n = 250 if tier == 'quick' else 12000
     for k in range(n):
         weird = (k % 8 == 7)
-        yield tsprop.gen_case(rng, n_ops=rng.choice([10, 25, 60]), listeners=(k % 2 == 0), waits=(k % 3 == 0), attach=False, weird=weird)
+        yield tsprop.gen_case(rng, n_ops=rng.choice([15, 30, 60]), listeners=(k % 2 == 0), waits=(k % 3 == 0), attach=False, weird=weird)
 
 
 def classify(r):
